@@ -33,6 +33,14 @@ namespace adm {
     os << ")";
   }
 
+  std::shared_ptr<AudioPackFormat> AudioPackFormatHoa::copy() const {
+    auto audioPackFormatCopy =
+        std::shared_ptr<AudioPackFormatHoa>(new AudioPackFormatHoa(*this));
+    audioPackFormatCopy->setParent(std::weak_ptr<Document>());
+    audioPackFormatCopy->disconnectReferences();
+    return audioPackFormatCopy;
+  }
+
   AudioPackFormatHoa::AudioPackFormatHoa(AudioPackFormatName name)
       : AudioPackFormat(name, adm::TypeDefinition::HOA) {}
 }  // namespace adm
